@@ -8,3 +8,20 @@ BUILT["C19"] = (
  "TLC enumerates all boxes (dimension 1-2 bounds -2..3; dimension 3 bounds -1..2) on the TLA+ definition of row-major enumeration and clipped indexing with the inverse/no-duplicate/nearest-row invariants; the real create_range_space is executed on every box (plus sampled dimension-4 boxes), its space rows and its index function on every vector inside and one unit outside are judged by TLC with the same predicates.",
  "Trusted: TLC; harness/workers/rangespace_worker.py (vmapped index_fn). Bounds as stated; larger bounds/dimensions unverified.",
  "DESIGN.md 3/C19")
+_SOLVER_NOTE = ("Trusted: TLC; the TabularProblem renderer and the float->integer projection (harness/tabular.py, "
+                "harness/workers/solver_worker.py: a value not exactly representable at the trace scale is logged as such and "
+                "rejected); Python Fractions only PROPOSE certificates, TLC verifies each before use. Bounds: dyadic MDP families "
+                "(probabilities k/PD, gamma in {1/4,1/2,3/4,1}, dyadic rewards/epsilon), <= ~120 states, sweep depth limited by "
+                "32-bit fixed point (longer traces are truncated and only their prefix judged). Hooks: sweep/converged/solve events.")
+BUILT["C02"] = (
+ "TLC model of the Bellman backup (laws checked for all grid vectors on seeded gadgets) + TLC trace validation of single real sweeps from injected value vectors, exact integer equality",
+ "TLC checks monotonicity, gamma-contraction, the shift law and greedy=argmax of the TLA+ backup operator for every pair of grid vectors on seeded gadget MDPs; real ValueIteration sweeps from injected value vectors (unions of dyadic gadgets rendered with multi-dimensional states, vector actions, duplicate actions, array-valued probabilities, padded last batches) are recorded by the hooks and judged by SolverTrace.tla: new values must equal the exact backup state by state, the measure must be the documented one, the returned policy must be in the argmax set.",
+ _SOLVER_NOTE, "DESIGN.md 3/C02")
+BUILT["C04"] = (
+ "TLC exhaustive model of the RVI machine on seeded unichain gadgets (optimality-equation residual invariant) + TLC trace validation of real RVI runs with TLC-verified gain/bias certificates",
+ "TLC runs the relative-value-iteration machine, modelled as the code does it, to its stop on seeded unichain gadgets x initial values x tolerances and checks the optimality-equation residual, boundedness and stop-rule invariants; real RVI runs on seeded unichain aperiodic dyadic MDPs (incl. fast-mixing and constant-reward families) are judged sweep by sweep, and at convergence the reported gain, the exact gain of the returned policy and the optimality-equation residual are compared with epsilon against a (gain, bias) certificate that TLC first verifies through h + g = T h.",
+ _SOLVER_NOTE, "DESIGN.md 3/C04")
+BUILT["C08"] = (
+ "TLC exhaustive model of the solve() loop over ALL measure sequences x call sequences with merged-call self-composition + TLC trace validation of real call sequences on VI/SAVI/RVI/PVI",
+ "TLC explores the solve-loop machine (Call/Sweep/Test/Return) for every subset of below-threshold iterations and every call sequence of up to 3 calls next to the merged single call, with the limit, stop-at-first, count=backups and composability invariants; real solvers execute call sequences from the same set and every begin/sweep/converged/end event is judged by SolverTrace.tla (at most k sweeps, stop exactly at the first below-threshold sweep with measure and threshold exact, reported iteration = sweeps applied, values = that many exact backups of the problem's initial values, policy greedy).",
+ _SOLVER_NOTE, "DESIGN.md 3/C08")
